@@ -29,4 +29,8 @@ def run(tier):
         r.vacuity = []
         r.seconds = time.time() - t0
         reps.append(r)
+    from ..contracts import emd as EM
+    for rel, q, c, sites, tag in EM.ITEMS:
+        if tag == 'C16':
+            reps.append(deductive.verify_function(rel, q, c, hooks=EM.hooks(sites), prefix='%s::%s[update equations]' % (rel, q)))
     return reps
